@@ -7,7 +7,7 @@ names = [a for a in sys.argv[1:] if not a.startswith("--")] or sorted(os.listdir
 all_checks = "--all-checks" in sys.argv
 claimed = [c["property_id"] for c in json.load(open(f"{V}/MANIFEST.json"))["checks"]]
 EXTRA = {"C12-b": ["C19"], "C06-b": ["C11"], "C10-b": ["C06"], "C01-b": [], "C05-b": ["C11"], "C02-b": ["C17"], "C03-a": ["C10", "C04"], "C04-a": ["C10"], "C06-a": ["C10"], "C17-a": ["C06"], "C10-a": ["C03", "C04"], "C02-a": ["C12"], "C19-a": ["C01"], "C08-a": ["C01"], "C09-a": ["C01"],
-         "C11-b": ["C10"], "C04-b": ["C10", "C03"], "C03-b": ["C10", "C04"], "C17-b": ["C10", "C03", "C06"], "C09-b": ["C13"], "C19-b": ["C11"], "C13-b": ["C09"], "C05-c": ["C02", "C12"], "C13-c": ["C11"], "C02-c": ["C17"], "C01-d": ["C08"], "C06-d": ["C01"], "C09-d": ["C11"], "C10-d": ["C04"], "C04-d": ["C10"], "C08-e": ["C18"], "C11-e": ["C02"], "C18-e": ["C19"], "C17-e": ["C12"]}
+         "C11-b": ["C10"], "C04-b": ["C10", "C03"], "C03-b": ["C10", "C04"], "C17-b": ["C10", "C03", "C06"], "C09-b": ["C13"], "C19-b": ["C11"], "C13-b": ["C09"], "C05-c": ["C02", "C12"], "C13-c": ["C11"], "C02-c": ["C17"], "C01-d": ["C08"], "C06-d": ["C01"], "C09-d": ["C11"], "C10-d": ["C04"], "C04-d": ["C10"], "C08-e": ["C18"], "C11-e": ["C02"], "C18-e": ["C19"], "C17-e": ["C12"], "C07-f": ["C18"], "C14-f": ["C16"], "C12-f": ["C11"], "C05-f": ["C14"]}
 assert subprocess.run(["git", "-C", "/repo", "status", "--porcelain"], capture_output=True, text=True).stdout.strip() == "", "/repo not clean"
 for name in names:
     d = f"{V}/seeded/{name}"
